@@ -151,6 +151,7 @@ class JDProvider:
 
 def _token_agent(ns, aid, js, log, kind):
     from resonaate.agents.agent_base import Agent
+    from resonaate.agents.sensing_agent import SensingAgent
 
     class Tok:
         realtime = True
@@ -161,7 +162,8 @@ def _token_agent(ns, aid, js, log, kind):
 
         station_keeping = ()
         dynamics = "dynamics-token"
-        datetime_epoch = None
+        datetime_start = None
+        datetime_epoch = Agent.datetime_epoch
 
         def __init__(self):
             self.propagate_event_queue = []
@@ -174,9 +176,10 @@ def _token_agent(ns, aid, js, log, kind):
 
         def appendTimeBiasEvent(self, ev):
             log.append(("time_bias", kind, aid, log.step, ev))
+            SensingAgent.appendTimeBiasEvent(self, ev)
 
-        def pruneTimeBiasEvents(self):
-            pass
+        pruneTimeBiasEvents = SensingAgent.pruneTimeBiasEvents
+        julian_date_epoch = Agent.julian_date_epoch
 
     return Tok()
 
@@ -209,6 +212,9 @@ def build(ns, jdp, t0, dt, k0_t, truth_only, events):
     sc._sensor_agents = SymDict({i: _token_agent(ns, i, js, log, "sensor") for i in SEN_IDS})
     sc._estimate_agents = SymDict({i: _token_agent(ns, i, js, log, "estimate") for i in TGT_IDS})
     sc._ephem_importer = None
+    for ags in (sc.target_agents, sc._sensor_agents, sc._estimate_agents):
+        for ag in ags.values():
+            ag.datetime_start = t0
 
     class Exec:
         def enqueueJob(self, reg):
@@ -280,7 +286,8 @@ def run_steps(b_unused, dt, truth_only, mk_events, nsteps=3, pin=None, k0_max=No
     from resonaate.scenario import scenario as SC
 
     mods = [("resonaate.scenario.scenario", {"float": fp.fp_float}), ("resonaate.scenario.clock", {}), ("resonaate.data.events.scheduled_impulse", {}), ("resonaate.data.events.target_addition", {}),
-            ("resonaate.data.events.agent_removal", {}), ("resonaate.data.events.sensor_time_bias", {}), ("resonaate.data.events.target_task_priority", {})]
+            ("resonaate.data.events.agent_removal", {}), ("resonaate.data.events.sensor_time_bias", {}), ("resonaate.data.events.target_task_priority", {}),
+            ("resonaate.agents.sensing_agent", {}), ("resonaate.agents.agent_base", {})]
     with time_env(mods) as ns:
         jdp = JDProvider(ns)
         n0, sod0, k0 = integer("n0"), integer("sod0"), integer("k0")
@@ -308,6 +315,10 @@ def run_steps(b_unused, dt, truth_only, mk_events, nsteps=3, pin=None, k0_max=No
             extra.enter_context(shadow(AP, ReductionParams=types.SimpleNamespace(build=lambda d: None)))
         else:
             names["PropagateRegistration"] = _Reg
+        import resonaate.agents.sensing_agent as SA
+
+        if "datetimeToJulianDate" in SA.__dict__:
+            extra.enter_context(shadow(SA, datetimeToJulianDate=jdp))
         with extra, shadow(SC, **names):
             for s in range(nsteps):
                 log.step = s
@@ -321,6 +332,8 @@ def run_steps(b_unused, dt, truth_only, mk_events, nsteps=3, pin=None, k0_max=No
                         log.append(("queue", (kind, ag.simulation_id), s, list(ag.propagate_event_queue)))
                         if not (apply and kind == "target"):
                             ag.prunePropagateEvents()
+                for ag in sc._sensor_agents.values():
+                    log.append(("tbqueue", ag.simulation_id, s, list(ag.sensor_time_bias_event_queue)))
                 wins.append(sc.database.queries[nq:])
         return dict(ns=ns, t0=t0, k0=k0, n0=n0, sod0=sod0, sc=sc, log=log, events=events, js=sc.clock.julian_date_start)
 
@@ -530,7 +543,7 @@ def _decide_deliveries(rep, res, dt, tag, run):
 N_CANDIDATES = 150
 
 
-def _ladder(rep, pending, dt, replay=None):
+def _ladder(rep, pending, dt, replay=None, extra=("target",)):
     """Counterexample candidates of the relaxed (over-approximate) encoding.  The relaxed encoding admits rounding outcomes the
     real doubles do not produce, so a candidate may fail to replay on the real code: further candidates are then drawn from the
     solver (round-robin over the satisfiable paths, earlier start instants blocked, a different start date each time).  A
@@ -562,11 +575,92 @@ def _ladder(rep, pending, dt, replay=None):
             if v.status != "sat":
                 st["alive"] = False
                 continue
-            st["cand"] = _inputs(dt, ("target",))(v.model)
+            st["cand"] = _inputs(dt, extra)(v.model)
             if tried >= N_CANDIDATES:
                 break
     for st in state:
         rep.undecided(st["label"], f"counterexample candidates of the relaxed encoding ({st['why']}) did not reproduce on the real code ({tried} tried over {len(state)} paths); not decided")
+
+
+def replay_scopes(d):
+    """Real stepForward / getRelevantEvents / handleEvent / SensingAgent time-bias queue with concrete values (agents advance
+    through the real PropagateRegistration; the worker only advances time)."""
+    from resonaate.data.events import AgentRemovalEvent, EventScope, SensorTimeBiasEvent
+    from resonaate.parallel import agent_propagation as AP
+    from resonaate.physics.time.stardate import JulianDate, ScenarioTime, datetimeToJulianDate
+    from resonaate.scenario import clock as CK
+    from resonaate.scenario import scenario as SC
+
+    start = _dt.datetime.fromisoformat(d["start"])
+    dt, k0, m = d["dt"], d["k0"], d["m"]
+    ns = types.SimpleNamespace(JulianDate=JulianDate, ScenarioTime=ScenarioTime)
+    log = _Log()
+    js = datetimeToJulianDate(start)
+    e = datetimeToJulianDate(start + _dt.timedelta(seconds=m))
+    if d.get("kind", 1) == 0:
+        ev = AgentRemovalEvent(scope=EventScope.SCENARIO_STEP.value, scope_instance_id=0, start_time_jd=e, end_time_jd=e, event_type="agent_removal", tasking_engine_id=1, agent_id=11, agent_type="target")
+    else:
+        e2 = datetimeToJulianDate(start + _dt.timedelta(seconds=d["m2"]))
+        ev = SensorTimeBiasEvent(scope=EventScope.OBSERVATION_GENERATION.value, scope_instance_id=d["sensor"], start_time_jd=e, end_time_jd=e2, event_type="time_bias", applied_bias=0.1)
+        ev.id = 1
+    clock = object.__new__(CK.ScenarioClock)
+    clock.datetime_start, clock.julian_date_start = start, js
+    clock.dt_step, clock.time, clock.initial_time = ScenarioTime(dt), ScenarioTime(k0 * dt), ScenarioTime(0)
+    sc = object.__new__(SC.Scenario)
+    sc.clock = clock
+    sc.current_julian_date = clock.julian_date_epoch
+    sc.database = StubDB([ev])
+    nul = lambda *a, **k: None  # noqa: E731
+    sc.logger = types.SimpleNamespace(info=nul, error=nul, debug=nul, warning=nul)
+    sc.scenario_config = types.SimpleNamespace(propagation=types.SimpleNamespace(truth_simulation_only=False))
+    sc.target_agents = {i: _token_agent(ns, i, js, log, "target") for i in TGT_IDS}
+    sc._sensor_agents = {i: _token_agent(ns, i, js, log, "sensor") for i in SEN_IDS}
+    sc._estimate_agents = {i: _token_agent(ns, i, js, log, "estimate") for i in TGT_IDS}
+    for ags in (sc.target_agents, sc._sensor_agents, sc._estimate_agents):
+        for a in ags.values():
+            a._time, a.dt_step, a.datetime_start = ScenarioTime(k0 * dt), ScenarioTime(dt), start
+    sc._ephem_importer = None
+
+    class Exec:
+        def __init__(self):
+            self.jobs = []
+
+        def enqueueJob(self, reg):
+            self.jobs.append(reg)
+
+        def join(self):
+            jobs, self.jobs = self.jobs, []
+            for reg in jobs:
+                sub = reg.generateSubmission()
+                reg.processResults(AP.PropagateResult(agent_id=sub.agent_id, final_time=sub.final_time, prev_state=sub.init_eci, final_eci=sub.init_eci))
+
+    sc._agent_propagator = Exec()
+    sc._estimate_predictor = sc._estimate_updater = types.SimpleNamespace(enqueueJob=nul, join=nul)
+    sc._target_store, sc._sensor_store, sc._estimate_store, sc._tasking_engines = {}, {}, {}, {}
+    removals = []
+    sc.removeTarget = lambda *a: removals.append((log.step, a))
+    sc.removeSensor = sc.addTarget = sc.addSensor = nul
+    active, handed = {}, {}
+    with shadow(SC, ray=types.SimpleNamespace(put=lambda x: x), EventStack=types.SimpleNamespace(logAndFlushEvents=nul), EstPredictRegistration=_Reg, EstUpdateRegistration=lambda *a: None), \
+            shadow(AP, ReductionParams=types.SimpleNamespace(build=lambda dd: None)):
+        for s in range(3):
+            log.step = s
+            sc.stepForward()
+            for sid, a in sc._sensor_agents.items():
+                active[(s, sid)] = len(a.sensor_time_bias_event_queue)
+    if d.get("kind", 1) == 0:
+        want = (m - k0 * dt - 1) // dt
+        ok = removals == [(want, (11, 1))]
+        return (not ok), {"removeTarget calls (step, args)": removals, "expected_step": want}
+    m2, sen = d["m2"], d["sensor"]
+    bad = []
+    for s in range(3):
+        t_epoch = (k0 + s + 1) * dt
+        for sid in SEN_IDS:
+            want = 1 if (sid == sen and m <= t_epoch <= m2) else 0
+            if active[(s, sid)] != want:
+                bad.append({"step": s, "epoch_s": t_epoch, "sensor": sid, "bias_events_active": active[(s, sid)], "expected": want})
+    return bool(bad), {"mismatches": bad[:4], "bias_interval_s": [m, m2], "addressed_sensor": sen}
 
 
 # ---- the impulse changes the truth velocity exactly once ------------------------------------------------
@@ -764,9 +858,10 @@ def o_scopes(rep, dt):
         return [SensorTimeBiasEvent(scope=EventScope.OBSERVATION_GENERATION.value, scope_instance_id=sen, start_time_jd=jdp(t0 + STimeDelta(seconds=m.t)),
                                     end_time_jd=jdp(t0 + STimeDelta(seconds=m2.t)), event_type="time_bias", applied_bias=0.1)]
 
-    res = _explore(lambda: run_steps(None, dt, False, mk), "relaxed")
+    res = _explore(lambda: run_steps(None, dt, False, mk, apply=True), "relaxed")
     tag = f"[dt={dt}]"
     n = 0
+    pending = []
     for k, r in enumerate(res):
         if r.exc is not None:
             rep.error(f"exception{tag}#{k}", repr(r.exc))
@@ -790,6 +885,13 @@ def o_scopes(rep, dt):
             for s in range(3):
                 overlaps = z3.And(mt <= (k0.t + s + 1) * dt, m2 > (k0.t + s) * dt)
                 goals.append(overlaps == z3.BoolVal(s in steps))
+            # the bias is *active* (in the addressed sensor's queue when observations are made) exactly at the step epochs inside [start, end]
+            for x in log:
+                if x[0] == "tbqueue":
+                    _t, sid, s, q = x
+                    active = z3.And(mt <= (k0.t + s + 1) * dt, m2 >= (k0.t + s + 1) * dt)
+                    goals.append(z3.BoolVal(len(q) <= 1))
+                    goals.append(z3.BoolVal(bool(q)) == z3.And(active, z3.Int("sensor") == sid))
         else:
             # nothing delivered in three steps: only legal for a time-bias row whose interval is empty against every window (cannot happen: m is inside the span)
             goals.append(z3.BoolVal(False))
@@ -801,10 +903,17 @@ def o_scopes(rep, dt):
                 goals.append(z3.And(prior.tot == t0.tot + (k0.t + s) * dt, now.tot == t0.tot + (k0.t + s + 1) * dt))
         goals.append(z3.BoolVal(len([x for x in log if x[0] == "assess"]) == 3 * len(ENG_IDS)))
         goal = z3.And(*goals)
-        rep.prove(f"scopes{tag}#{k}", goal, fp.sliced(r.path, goal), timeout_ms=120000,
-                  sample="scenario-scope event handled once in its step; time-bias row handed to exactly the addressed sensor in exactly the overlapping steps; engines get (previous, new) epoch")
+        v = solve(fp.sliced(r.path, goal) + [z3.Not(goal)], 120000)
+        rep._item(f"scopes{tag}#{k}", "prove", v)
+        rep.sample({"obligation": f"scopes{tag}", "verdict": v.status, "what": "scenario-scope event handled once in its step; time-bias row handed to exactly the addressed sensor in exactly the overlapping steps and active exactly at the epochs inside its interval; engines get (previous, new) epoch"})
+        if v.status == "unknown":
+            rep.undecided(f"scopes{tag}#{k}", v.reason)
+        elif v.status == "sat":
+            pending.append((f"scopes{tag}#{k}", _inputs(dt, ("m2", "sensor", "kind"))(v.model), fp.sliced(r.path, goal) + [z3.Not(goal)], "relaxed-rounding candidate"))
     if n == 0:
         rep.error(f"reach{tag}", "no path")
+    if pending:
+        _ladder(rep, pending, dt, replay=replay_scopes, extra=("m2", "sensor", "kind"))
 
 
 def o_from_config(rep):
@@ -857,4 +966,5 @@ def obligations(tier):
         REPLAYS[f"applied-dt{dt}"] = replay_applied
     for dt in ((60, 3080) if tier == "quick" else (7, 60, 300, 3080)):
         obs.append(Ob(f"scopes-dt{dt}", (lambda dt: lambda rep: o_scopes(rep, dt))(dt), f"scenario / observation scopes and engine epochs, dt={dt}", 900))
+        REPLAYS[f"scopes-dt{dt}"] = replay_scopes
     return obs
